@@ -518,6 +518,15 @@ func runC15(c *Case) error {
 		if r1.Hang && strings.Contains(in.Body, "epsilon") {
 			c.Known = "oapi.compute:tiny-epsilon-binary64-2-cycle"
 		}
+		if r1.Hang {
+			// the damaged body may still carry an alpha so small that 1 - alpha rounds to 1 (the same listed
+			// finding as for the structured requests: an undamped iteration need not converge)
+			var m map[string]json.RawMessage
+			var a float64
+			if json.Unmarshal([]byte(strings.TrimPrefix(in.Body, "\xef\xbb\xbf")), &m) == nil && json.Unmarshal(m["alpha"], &a) == nil && a > 0 && 1-a == 1 {
+				c.Known = "oapi.compute:alpha-below-rounding-undamped-iteration"
+			}
+		}
 	case "GAdv":
 		var h gHist
 		c.decode(&h)
